@@ -255,3 +255,11 @@ Definition encode_sym (le is64 : bool) (name value : Z) : list Z :=
   encode_layout (spec_Elf_Sym le is64) (sym_vals_of is64 name value 0 0 0 0 0 0).
 Definition encode_dyn (le is64 : bool) (tag val : Z) : list Z :=
   encode_layout (spec_Elf_Dyn le is64) [VZ tag; VZ val].
+
+(* ------------------------------------------------------------------ how many sections a file has *)
+(* gABI ch. 4 "ELF header" / "Sections": e_shnum holds the number of section headers; if that number
+   is >= SHN_LORESERVE (0xff00), e_shnum is 0 and the number is in sh_size of section header 0
+   (otherwise that sh_size is 0).  A relocation section may sit at any index of the table. *)
+Definition SHN_LORESERVE := 0xff00.
+(* (e_shnum, sh_size of section header 0) of a file with n section headers *)
+Definition shnum_fields (n : Z) : Z * Z := if n <? SHN_LORESERVE then (n, 0) else (0, n).
